@@ -151,7 +151,7 @@ pub fn replay_decode(case: &Value) {
 /// and height (a product, a residue of the product, a size class) is inside the explored set
 /// rather than between two probes.
 pub fn dim_lattice() -> Vec<u16> {
-    let mut v: Vec<u32> = vec![1, 2, 3, 5, 65535, 120, 144, 160, 176, 240, 288, 320, 352, 576, 704, 1152, 1408];
+    let mut v: Vec<u32> = vec![1, 2, 3, 5, 65535, 65534, 65520, 120, 144, 160, 176, 240, 288, 320, 352, 576, 704, 1152, 1408];
     // round decimal video sizes and primes (values in general position)
     v.extend([480, 600, 640, 720, 800, 1000, 1080, 1280, 1500, 1920, 10000, 50000]);
     v.extend([13, 37, 101, 331, 1009, 2003, 4099, 10007, 20011, 40009, 65521]);
